@@ -326,6 +326,60 @@ pub fn run(run: &mut Run) {
     });
     st.merge(Stats::merge_all(accs));
 
+    // rendered reports with the sources on disk: alone vs after other failing compilations in the same thread (the
+    // rendered text quotes source lines, so state kept between compilations would show up here)
+    {
+        let hroot = crate::report::verif_root().join("scratch").join(format!("c16-hist-{}", std::process::id()));
+        let _ = std::fs::remove_dir_all(&hroot);
+        let write_tree = |name: &str, files: &Files| -> std::path::PathBuf {
+            let root = hroot.join(name);
+            for (p, text) in files {
+                let dest = root.join(p.trim_start_matches('/'));
+                std::fs::create_dir_all(dest.parent().unwrap()).unwrap();
+                std::fs::write(&dest, text).unwrap();
+            }
+            root.join("p/main.sy")
+        };
+        let bad1 = write_tree("bad1", &bad_filler);
+        let bad2 = write_tree("bad2", &bad_filler2);
+        let rejected: Vec<(usize, &(String, Files, bool))> = inputs.iter().enumerate().filter(|(k, (id, _, valid))| !*valid && (k % 16 == 0 || !id.starts_with("decl ") && !id.starts_with("literal ") && !id.starts_with("near-names"))).collect();
+        let accs = crate::pool::par_items(&rejected, 1, |_| Stats::new(), |acc, _, (idx, (id, files, _))| {
+            let main = write_tree(&format!("i{}", idx), files);
+            let alone = crate::pool::on_fresh_thread(0xC16_2000, || compile_disk(&main));
+            let after = crate::pool::on_fresh_thread(0xC16_2000, || {
+                let _ = compile_disk(&bad1);
+                let _ = compile_disk(&bad2);
+                compile_disk(&main)
+            });
+            let twice = crate::pool::on_fresh_thread(0xC16_2000, || {
+                let _ = compile_disk(&main);
+                compile_disk(&main)
+            });
+            acc.evaluations += 3;
+            let fa = outcome_fingerprint(&alone);
+            for (what, o) in [("after two failing compilations of other projects", &after), ("compiled a second time", &twice)] {
+                let fo = outcome_fingerprint(o);
+                if fo == fa {
+                    acc.outcome("rendered-report:identical");
+                } else {
+                    acc.outcome("rendered-report:DIFFERS");
+                    let mut fm = serde_json::Map::new();
+                    for (k, v) in files.iter() {
+                        fm.insert(k.clone(), json!(v));
+                    }
+                    acc.fail(Failure {
+                        sig: "result-depends-on-execution".into(),
+                        preds: vec![format!("input:{}", id), "rendered-report-on-disk".into()],
+                        detail: format!("input {} (sources on disk): the rendered error report {} differs from the report of a first compilation\n--- alone\n{}\n--- {}\n{}", id, what, fa, what, fo),
+                        case: json!({"engine": "c16", "files": fm, "seeds": 4}),
+                        size: 300,
+                    });
+                }
+            }
+        });
+        st.merge(Stats::merge_all(accs));
+        let _ = std::fs::remove_dir_all(&hroot);
+    }
     // cross-process: the built binary, real random seeds, different environments
     let bin = sylt_bin();
     if !bin.exists() {
@@ -386,7 +440,7 @@ pub fn run(run: &mut Run) {
     st.states = st.evaluations;
     run.stats = st;
     run.exhaustive = false;
-    run.rule = "inputs: programs with several independent errors in one blob/enum/file/project, valid single- and multi-file programs, the repository's test programs; executions per input: every seed of the seed set (fresh thread each) x history positions {first, after 1, after 7 compiles, after two failing compilations of other sources with rendered errors}, plus repeated runs of the built binary under two environments; non-trivial = every input (each is executed at least 16 times); distinct by input".into();
+    run.rule = "inputs: programs with several independent errors in one blob/enum/file/project, valid single- and multi-file programs, the repository's test programs; executions per input: every seed of the seed set (fresh thread each) x history positions {first, after 1, after 7 compiles, after two failing compilations of other sources with rendered errors}, plus, with the sources on disk, the rendered report alone vs after two failing compilations of other projects vs compiled twice; plus repeated runs of the built binary under two environments; non-trivial = every input (each is executed at least 16 times); distinct by input".into();
     run.bounds = json!({"seeds": seeds, "history_positions": [0, 1, 7], "process_repetitions": reps, "corpus_programs": corpus.len(), "corpus_seeds": cseeds});
     run.assumptions = vec![
         "the seed dimension is bounded, controlled repetition through the getrandom seam (2^128 keys exist); exhaustive only over the listed inputs".into(),
